@@ -8,7 +8,7 @@ PROP = {
          'Oracle at every block on every fork and node: GetCandidatesTop(block) == all accounts whose profile says candidate in that block\'s view, sorted (votes '
          'desc, address asc), cut to the list size; snapshot blocks: deputy nodes == first N of the list at the parent, ranks 0..N-1, node ids from the profiles, '
          'votes non-increasing; a panic of the deputy manager when the block stabilises or at restart kills the batch (crash class). distinct = (deputies, height, '
-         'candidate kinds); non-trivial = block with >= 2 txs',
+         'candidate kinds); non-trivial = block with >= 2 txs Every third scenario lets a candidate register late, followed by an empty block; both become stable together and node R restarts at once.',
  'assumptions': ['the list size is set through a tag-only accessor (store.max_candidate_count) to 3..5 so that more candidates than slots exist',
                  'restarts are clean (queue drained); crash restarts are C08\'s subject'],
  'min_cases': {'quick': 400, 'thorough': 10000},
